@@ -56,7 +56,9 @@ func OracleC11() *Oracle {
 }
 
 func osapLayers(tier string) []Layer {
-	m := Menu{WriteChunks: true, ReadFrom: false, NTL: false, ParseNil: false, StopEarly: true, ShrinkDev: true, Reset: true}
+	// NoTrailingLiterals blocks are not judged (the property speaks about flags 0), but the flags-0 block that
+	// re-parses the literals an earlier NoTrailingLiterals call gave back must be optimal again
+	m := Menu{WriteChunks: true, ReadFrom: false, NTL: true, ParseNil: false, StopEarly: true, ShrinkDev: true, Reset: true}
 	k := []string{"OSAP"}
 	if tier == "thorough" {
 		return []Layer{
@@ -126,7 +128,7 @@ func osapExtraLayers(tier string) []Layer {
 	}}
 	return []Layer{
 		// data appended while unparsed data is pending (no Shrink in between): edges recomputed with W > 0
-		{Name: "osap-trickle", Kinds: []string{"OSAP"}, Geos: multiBlockGeos, Level: 0, Inputs: Binary(8), Menu: Menu{Trickle: true, ShrinkDev: true}, Bound: 1, CfgPerShard: 1},
+		{Name: "osap-trickle", Kinds: []string{"OSAP"}, Geos: multiBlockGeos, Level: 0, Inputs: Binary(8), Menu: Menu{Trickle: true, ShrinkDev: true, NTL: true}, Bound: 1, CfgPerShard: 1},
 		{Name: "osap-nested", Kinds: []string{"OSAP"}, CfgsFn: osapCfgs(wide, [][2]int{{2, 273}, {3, 273}, {4, 273}, {2, 4}}), Inputs: NestedPrefixes(), Menu: m, Bound: 1, CfgPerShard: 2},
 		{Name: "osap-longmatch", Kinds: []string{"OSAP"}, CfgsFn: osapCfgs(long, [][2]int{{2, 274}, {2, 1000}, {3, 600}}), Inputs: longIn, Menu: m, Bound: 0, CfgPerShard: 1},
 	}
@@ -141,14 +143,16 @@ func wideOnly(pc PCfg) bool {
 
 func init() {
 	register(&Check{
-		ID:     "C11",
+		ID: "C11",
 		Shards: func(tier string) []engine.Shard {
 			return parserShards("C11", append(osapExtraLayers(tier), osapLayers(tier)...), OracleC11)
 		},
 		Replay: func(raw json.RawMessage, col *engine.Collector) error {
 			return replayParser("C11", raw, OracleC11, col)
 		},
-		Bounds:      func(tier string) map[string]any { return layerBounds(append(osapExtraLayers(tier), osapLayers(tier)...)) },
+		Bounds: func(tier string) map[string]any {
+			return layerBounds(append(osapExtraLayers(tier), osapLayers(tier)...))
+		},
 		Rule:        ruleParser,
 		Explanation: "cost of every flags-0 block of OSAP equals the optimum of an independent O(n*window*maxlen) dynamic program over literal and match edges on the same buffer contents; XZCost is re-implemented in the reference and cross-checked against lz.XZCost",
 		StatesNote:  "state = OSAP parser state hash (buffer, W, Off, edge bookkeeping); transition = one API call on the real parser",
